@@ -85,7 +85,7 @@ def _identity_map(fe):
     return False
 
 
-def prune(ls, pc, timeout_ms=1500):
+def prune(ls, pc, timeout_ms=150):
     """drop leaves that cannot be reached under the path condition (guard unsatisfiable)"""
     out = []
     for l in ls:
